@@ -789,6 +789,15 @@ func buildFieldType(ww *conversionVisitor, node sourcewalk.FieldNode) (*descript
 			proto.SetExtension(desc.Options, validate.E_Field, rules)
 		}
 
+		if st.Timestamp.ListRules != nil {
+			ww.file.ensureImport(j5ListAnnotationsImport)
+			proto.SetExtension(desc.Options, list_j5pb.E_Field, &list_j5pb.FieldConstraint{
+				Type: &list_j5pb.FieldConstraint_Timestamp{
+					Timestamp: st.Timestamp.ListRules,
+				},
+			})
+		}
+
 		return desc, nil
 	case *schema_j5pb.Field_Any:
 
@@ -804,6 +813,15 @@ func buildFieldType(ww *conversionVisitor, node sourcewalk.FieldNode) (*descript
 				},
 			},
 		})
+
+		if st.Any.ListRules != nil {
+			ww.file.ensureImport(j5ListAnnotationsImport)
+			proto.SetExtension(desc.Options, list_j5pb.E_Field, &list_j5pb.FieldConstraint{
+				Type: &list_j5pb.FieldConstraint_Any{
+					Any: st.Any.ListRules,
+				},
+			})
+		}
 
 		return desc, nil
 	default:
